@@ -1169,7 +1169,14 @@ func (m *Nitro) LoadFromDisk(dir string, concurr int, callb ItemCallback) (*Snap
 		}
 	}
 
+	oldStore := m.store
 	m.store = b.Assemble(segments...)
+	if m.useMemoryMgmt {
+		// The assembled structure replaces the instance's initial one:
+		// release the sentinels of the structure that is dropped.
+		oldStore.FreeNode(oldStore.HeadNode(), &oldStore.Stats)
+		oldStore.FreeNode(oldStore.TailNode(), &oldStore.Stats)
+	}
 
 	// Delta processing
 	if m.useDeltaFiles {
